@@ -1,5 +1,6 @@
 SPECIFICATION FairSpec
 CONSTANTS
+ EarlyTailError = FALSE
  MaxReinit = 0
  CountCalls = FALSE
  NW = 2  HdrSz = 1  TailSz = 1  TailOk = TRUE  Chunk = 1
